@@ -9,7 +9,7 @@
 From Coq Require Import ZArith List Lia String.
 From LT Require Import Zbase gen_Consts SigmaPrim KeyRingModel KeyRingLemmas SigmaModel SigmaLemmas.
 From LT Require Import gen_FSInputs FsModel SigmaFsAgree SigmaFsLemmas PedersenModel PedersenLemmas.
-From LT Require Import CodecModel SamplerModel ShuffleModel CutChooseModel CutChooseLemmas SkcModel SkcLemmas.
+From LT Require Import CodecModel SamplerModel ShuffleModel CutChooseModel CutChooseLemmas SkcProveModel SkcProveLemmas.
 Import ListNotations.
 Local Open Scope Z_scope.
 
